@@ -227,7 +227,7 @@ func shrink(t *testing.T, def *Def, job *Job, out *WorkerOut) {
 		out.ShrinkN = runs
 		return
 	}
-	budgetLeft := func() bool { return runs < 4000 && time.Now().Before(deadline) }
+	budgetLeft := func() bool { return runs < 3000 && time.Now().Before(deadline) }
 	improved := true
 	for improved && budgetLeft() {
 		improved = false
